@@ -130,7 +130,7 @@ theorem dq_item (env : Env) (i : DqItem) (acc : Bytes) (nl : Nat) (tail : Bytes)
           simpa using this
         simp [DqItem.render, dqRun, dqStep, dqPlain, this]
       rw [e1, dqRun_envBody env _ [] acc nl tail hbody]
-      simp [envLookup_default env name d hname, DqItem.value, DqItem.newlines, envValue]
+      simp [envLookup_default env name d hname, DqItem.value, DqItem.newlines, envValue, nlCount_cons]
       cases env name <;> simp
 
 /-- all items of a normal double-quoted body -/
@@ -271,7 +271,7 @@ variable's value, else the default, else nothing. -/
 theorem C03_env_dq (env : Env) (name : Bytes) (dflt : Option Bytes) (nl : Nat) (rest : Bytes)
     (hwf : (DqItem.env name dflt).wf = true) :
     lexInitial env nl (c_dq :: ((DqItem.env name dflt).render ++ c_dq :: rest)) =
-      ⟨.str (cstr (envValue env name dflt)), nl, rest⟩ := by
+      ⟨.str (cstr (envValue env name dflt)), nl + (DqItem.env name dflt).newlines, rest⟩ := by
   have := C03_dq_decode env [.env name dflt] nl rest ⟨hwf, by simp [DqItem.okNext], trivial⟩
   simpa [renderDq, valueDq, newlinesDq, DqItem.value, DqItem.newlines] using this
 
@@ -287,7 +287,7 @@ theorem takeWhile_ne_append (p : Nat) (a b : Bytes) (h : a.all (· != p) = true)
 theorem C03_env_initial (env : Env) (name : Bytes) (dflt : Option Bytes) (nl : Nat) (rest : Bytes)
     (hwf : (DqItem.env name dflt).wf = true) :
     lexInitial env nl ((DqItem.env name dflt).render ++ rest) =
-      ⟨.str (cstr (envValue env name dflt)), nl, rest⟩ := by
+      ⟨.str (cstr (envValue env name dflt)), nl + (DqItem.env name dflt).newlines, rest⟩ := by
   simp only [DqItem.wf, Bool.and_eq_true] at hwf
   obtain ⟨hname, hd⟩ := hwf
   have hname' : name.all (· != c_rbr) = true := by
@@ -301,7 +301,7 @@ theorem C03_env_initial (env : Env) (name : Bytes) (dflt : Option Bytes) (nl : N
     have hb := takeWhile_ne_append c_rbr name rest hname'
     have hr : hasRbr (name ++ c_rbr :: rest) = true := hasRbr_append_rbr name rest
     simp only [DqItem.render, List.cons_append, List.nil_append, List.append_assoc, List.append_nil, lexInitial]
-    simp [hr, hb.1, hb.2, envLookup_name env name hname, envValue]
+    simp [hr, hb.1, hb.2, envLookup_name env name hname, envValue, DqItem.newlines]
     cases env name <;> simp
   | some d =>
     have hd' : d.all (· != c_rbr) = true := by simpa using hd
@@ -311,7 +311,7 @@ theorem C03_env_initial (env : Env) (name : Bytes) (dflt : Option Bytes) (nl : N
     have hr : hasRbr ((name ++ c_colon :: c_minus :: d) ++ c_rbr :: rest) = true := hasRbr_append_rbr _ rest
     simp only [List.append_assoc, List.cons_append] at hb hr
     simp only [DqItem.render, List.cons_append, List.nil_append, List.append_assoc, lexInitial]
-    simp [hr, hb.1, hb.2, envLookup_default env name d hname, envValue]
+    simp [hr, hb.1, hb.2, envLookup_default env name d hname, envValue, DqItem.newlines, nlCount_cons]
     cases env name <;> simp
 
 theorem takeWhile_word (w : Bytes) (d : Nat) (rest : Bytes) (hw : w.all isWordByte = true) (hd : isWordByte d = false) :
